@@ -810,6 +810,7 @@ func runC18(p *Prog, r *Report) {
 		return f != nil && f.Name() == "Reset" && recvNamed(f) != nil && recvNamed(f).Obj().Name() == "RTMetrics" && isFieldLoad(cc.Args[0], cb.typ, "metrics")
 	}
 	ret := ReturnReachableAvoiding(fn, trip, isReset, nil)
+	checkResetComplete(p, r, "C18.R3")
 	r.Check(ret == nil, "C18.R3", cn+": tripping clears the metrics", p.InstrPos(trip), "every path from the trip to a return passes metrics.Reset()", "a return is reachable after the trip without metrics.Reset()"+posOf(p, ret)+": stale failures of the window before the trip can trip the breaker again")
 	// serve: record then check on every normal path
 	var serveFn *ssa.Function
